@@ -252,6 +252,88 @@ def dispatch(pkttype: int, recipient: int, n_reg: int) -> bool:
     return log == [] and len(out.closed) == 1 and isinstance(out.closed[0], ProtocolError)
 
 
+def two_channels(e0: int, e1: int, e2: int, e3: int, e4: int) -> bool:
+    """Two channels open on one real connection: five interleaved events from
+    {peer DATA to A / to B, peer EOF to A / to B, local write on A / on B}
+    through the real receive path and send path - each session sees exactly
+    its own bytes in order and its own EOF; each written chunk leaves with its
+    own channel's remote number; nothing crosses over."""
+    from vf.rt import notrace
+    evs = [pick(['dA', 'dB', 'eofA', 'eofB', 'wA', 'wB'], e) for e in (e0, e1, e2, e3, e4)]
+    with notrace():
+        return _two_channels(evs)
+
+
+def _two_channels(evs):
+    from vf.stubs import MiniLoop, NullLogger
+    from props.connlib import pframe
+    from props.C10 import _Ident
+    loop = MiniLoop()
+    conn = mkconn(True, loop=loop)
+    out = instrument(conn)
+    conn._recv_encryption = _Ident()
+    conn._send_encryption = None
+    conn._auth_complete = conn._kex_complete = True
+    conn._recv_handler = conn._recv_pkthdr
+    wire = []
+    conn._send = lambda data: wire.append(bytes(data))
+    chans = {}
+    for name, remote in (('A', 11), ('B', 22)):
+        sess = RecSession()
+        ch = CH.SSHChannel(conn, loop, None, 'strict', 64, 32)
+        ch._logger = NullLogger()
+        ch._session = sess
+        ch._send_chan = remote
+        ch._send_state = ch._recv_state = 'open'
+        ch._send_window, ch._send_pktsize = 64, 32
+        ch._recv_paused = False
+        chans[name] = (ch, sess, remote)
+    expect = {'A': [], 'B': []}
+    sent = {'A': [], 'B': []}
+    eof = {'A': False, 'B': False}
+    n = 0
+    for ev in evs:
+        n += 1
+        which = ev[-1]
+        ch, sess, remote = chans[which]
+        data = bytes([64 + n]) * 3
+        if ev[0] == 'd':
+            if eof[which]:
+                continue
+            deliver(conn, pframe(conn, Byte(94) + UInt32(ch._recv_chan) + String(data)))
+            expect[which].append(('data', data, None))
+        elif ev.startswith('eof'):
+            if eof[which]:
+                continue
+            deliver(conn, pframe(conn, Byte(96) + UInt32(ch._recv_chan)))
+            eof[which] = True
+            expect[which].append(('eof',))
+        else:
+            if ch._send_state != 'open':
+                continue
+            ch.write(data)
+            sent[which].append(data)
+        loop.run(30)
+        if out.closed or out.internal or loop.exceptions:
+            return False
+    for which in 'AB':
+        ch, sess, remote = chans[which]
+        seen = [e for e in sess.log if e[0] in ('data', 'eof')]
+        if seen != expect[which]:
+            return False
+    # outgoing CHANNEL_DATA (and the EOF a session without eof handler triggers): recipient numbers and payloads
+    outA, outB = [], []
+    for w in wire:
+        t = w[5]
+        rc = int.from_bytes(w[6:10], 'big')
+        if t == 94:
+            ln = int.from_bytes(w[10:14], 'big')
+            (outA if rc == 11 else outB if rc == 22 else out.closed).append(w[14:14 + ln])
+        elif rc not in (11, 22):
+            return False
+    return outA == sent['A'] and outB == sent['B']
+
+
 OBLIGATIONS = [
     Ob('recv_order', recv_order,
        sym=dict(k0=R(0, 4), k1=R(0, 4), k2=R(0, 4), k3=R(0, 4), sstate=R(0, 2), eofret=B),
@@ -283,6 +365,11 @@ OBLIGATIONS = [
        functions=[CH.SSHChannel.write, CH.SSHChannel.set_encoding, CH.SSHChannel._deliver_data,
                   CH.SSHChannel._flush_recv_buf, CH.SSHChannel._process_eof],
        bounds='6 write sequences of fixed non-ASCII strings (sharded), encodings utf-8/utf-16/utf-32, wire cut at any byte position, paused or not, EOF or not'),
+    Ob('two_channels', two_channels, sym=dict(e0=R(0, 5), e1=R(0, 5), e2=R(0, 5), e3=R(0, 5), e4=R(0, 5)),
+       shards=dict(e0=[0, 1, 2, 3, 4, 5]), timeout=250,
+       functions=[C.SSHConnection._recv_packet, CH.SSHChannel._process_data, CH.SSHChannel._process_eof, CH.SSHChannel.write,
+                  CH.SSHChannel.send_packet],
+       bounds='2 channels on one real connection, 5 interleaved events from {DATA to A/B, EOF to A/B, write on A/B}'),
     Ob('dispatch', dispatch,
        sym=dict(pkttype=R(93, 100), recipient=R(0, 4)),
        shards=dict(n_reg=[0, 1, 2, 3]),
